@@ -34,13 +34,17 @@ pub struct XCfg {
     /// a peer that acknowledges / answers every duplicate copy (C16)
     pub ack_every_copy: bool,
     pub snapshot_tail: bool,
+    /// noise family: from answer `at` on, `count` non-progress answers of one kind (0 duplicate, 1 future/gap,
+    /// 2 stray packet of the other direction, 3 undecodable), then silence
+    pub noise: Option<(usize, u8, usize)>,
 }
 
 impl XCfg {
     pub fn to_json(&self) -> Value {
         json!({"role": if self.role == Role::Sender { "sender" } else { "receiver" }, "blk": self.blk, "ws": self.ws, "len": self.len,
                "handshake": self.handshake, "timeout_s": self.timeout_s, "repeat": self.repeat, "clean": self.clean, "alpha": self.alpha,
-               "silence_after": self.silence_after, "error_at": self.error_at, "ack_every_copy": self.ack_every_copy, "snapshot_tail": self.snapshot_tail})
+               "silence_after": self.silence_after, "error_at": self.error_at, "ack_every_copy": self.ack_every_copy, "snapshot_tail": self.snapshot_tail,
+               "noise": self.noise.map(|(a, k, n)| vec![a as u64, k as u64, n as u64])})
     }
     pub fn from_json(v: &Value) -> XCfg {
         XCfg {
@@ -57,6 +61,7 @@ impl XCfg {
             error_at: v["error_at"].as_u64().map(|x| x as usize),
             ack_every_copy: v["ack_every_copy"].as_bool().unwrap_or(false),
             snapshot_tail: v["snapshot_tail"].as_bool().unwrap_or(false),
+            noise: v["noise"].as_array().map(|a| (a[0].as_u64().unwrap() as usize, a[1].as_u64().unwrap() as u8, a[2].as_u64().unwrap() as usize)),
         }
     }
     pub fn timeout_ns(&self) -> u64 {
@@ -407,7 +412,16 @@ pub fn run(cfg: &XCfg, prefix: &[u16]) -> Trace {
                     }
                 }
                 let ans: Answer;
-                if cfg.silence_after.map(|n| answers >= n).unwrap_or(false) {
+                if let Some((at, kind, count)) = cfg.noise.filter(|(at, _, _)| answers >= *at) {
+                    if answers < at + count {
+                        ans = noise_answer(cfg, kind, &sv, &refr, &content);
+                        let a2 = ans.clone();
+                        ch.choose(&[0], &|_| format!("noise: {}", describe_answer(&a2)));
+                    } else {
+                        ans = Answer::Timeout;
+                        ch.choose(&[0], &|_| "Timeout(silence)".into());
+                    }
+                } else if cfg.silence_after.map(|n| answers >= n).unwrap_or(false) {
                     ans = Answer::Timeout;
                     ch.choose(&[0], &|_| "Timeout(silence)".into());
                 } else if cfg.error_at == Some(answers) {
@@ -447,6 +461,32 @@ pub fn run(cfg: &XCfg, prefix: &[u16]) -> Trace {
     let events = drv.take_events();
     let final_file = if cfg.role == Role::Receiver { std::fs::read(&path).ok() } else { None };
     Trace { cfg: cfg.clone(), events, log: ch.log.clone(), panicked, stuck, horizon_hit, replay_error: ch.replay_error.clone(), now_calls, final_file, content }
+}
+
+fn noise_answer(cfg: &XCfg, kind: u8, sv: &SView, refr: &RefRecv, content: &[u8]) -> Answer {
+    match cfg.role {
+        Role::Sender => match kind {
+            0 => pkt(rc::ack(w16(sv.acked)), 0),           // duplicate of the last valid ACK (ACK 0 at the start)
+            1 => pkt(rc::ack(w16(sv.hi + 1)), 0),          // acknowledges a block not sent yet
+            2 => pkt(rc::data(1, &[9, 9, 9]), 0),          // stray DATA
+            _ => pkt(vec![0, 9], 0),                       // undecodable
+        },
+        Role::Receiver => {
+            let e = refr.next;
+            match kind {
+                0 => {
+                    if e > 1 {
+                        pkt(rc::data(w16(e - 1), &block_payload(cfg, content, e - 1)), 0)
+                    } else {
+                        pkt(rc::data(w16(e + 2), &block_payload(cfg, content, e + 2)), 0)
+                    }
+                }
+                1 => pkt(rc::data(w16(e + 1), &block_payload(cfg, content, e + 1)), 0),
+                2 => pkt(rc::ack(w16(e)), 0),
+                _ => pkt(vec![0, 9], 0),
+            }
+        }
+    }
 }
 
 fn every_copy_answer(cfg: &XCfg, sends: &[Vec<u8>], copies_seen: &mut usize, refr: &RefRecv, content: &[u8]) -> Answer {
